@@ -2,6 +2,7 @@ package rules
 
 import (
 	"go/token"
+	"go/types"
 	"strings"
 
 	"golang.org/x/tools/go/ssa"
@@ -13,7 +14,7 @@ import (
 func init() {
 	register(&Prop{
 		ID:          "C02",
-		Explanation: "Decides the wiring of tamper-evidence and opacity: the signer feeds the MAC (seed as key; cookie name, base64 value, decimal timestamp in that order) and emits value|timestamp|signature built from those same three strings, while the verifier checks part 2 as the signature over (seed, cookie.Name, part 0, part 1) — same roles, same order, all of name, value and timestamp covered on both sides; cookieSignature keys hmac.New with its first argument, writes every further argument and returns the base64 of Sum; checkHmac compares with hmac.Equal the complete base64-decoded presented and expected signatures (no slicing, trimming or prefix compare) after both decode without error; every non-empty value given to MakeCookieFromOptions derives from SignedValue; session, ticket and CSRF payloads are decoded only from the value Validate returned for that cookie (C01.R7, C03.R2); the split-cookie loader hands the joined cookie itself to Validate; msgpack output of a session or CSRF flows only into Cipher.Encrypt (optionally through lz4Compress) and EncodeSessionState returns only Encrypt's result; what is stored server-side and what is signed into cookies derives from those ciphertexts or from the encoded ticket; every Cipher implementation in use wraps AES (cipher constructors enumerated).",
+		Explanation: "Decides the wiring of tamper-evidence and opacity: the signer feeds the MAC (seed as key; cookie name, base64 value, decimal timestamp in that order) and emits value|timestamp|signature built from those same three strings, while the verifier checks part 2 as the signature over (seed, cookie.Name, part 0, part 1) — same roles, same order, all of name, value and timestamp covered on both sides; cookieSignature keys hmac.New with its first argument, writes every further argument and returns the base64 of Sum; checkHmac compares with hmac.Equal the complete base64-decoded presented and expected signatures (no slicing, trimming or prefix compare) after both decode without error; every non-empty value given to MakeCookieFromOptions derives from SignedValue; session, ticket and CSRF payloads are decoded only from the value Validate returned for that cookie (C01.R7, C03.R2); the split-cookie loader hands the joined cookie itself to Validate; msgpack output of a session or CSRF flows only into Cipher.Encrypt (optionally through lz4Compress) and EncodeSessionState returns only Encrypt's result; what is stored server-side and what is signed into cookies derives from those ciphertexts or from the encoded ticket; every Cipher implementation in use wraps AES (cipher constructors enumerated); decodeTicket, DecodeSessionState and the CSRF decrypt are called only from their reviewed, validate-first callers and tickets are constructed only by newTicket/decodeTicket; a new ticket's id and per-ticket AES key are buffers filled by error-free crypto/rand reads.",
 		NotDecided:  "the cryptography itself; that unkeyed concatenation of name, value and timestamp is unambiguous; base64 laxness; 'decodes to exactly the session' (value semantics over all edits).",
 		Run:         runC02,
 	})
@@ -26,6 +27,8 @@ func runC02(c *Ctx) {
 	r.Rule("R3-validate-before-decode", "payloads are decoded only from Validate's value for that cookie", 7)
 	r.Rule("R4-encrypt-before-emit", "msgpack output flows only into Encrypt; stored/signed bytes derive from ciphertext", 9)
 	r.Rule("R5-constant-time-full-compare", "checkHmac: hmac.Equal on the complete decoded signatures", 1)
+	r.Rule("R7-decoder-callers", "payload decoders and ticket literals have closed, reviewed caller sets", 6)
+	r.Rule("R8-fresh-ticket", "a new ticket's id and AES key come from successful crypto/rand reads", 1)
 	r.Rule("R6-joined-cookie-validated", "the re-assembled split cookie is the one validated", 3)
 
 	signed := c.Fn("R1-mac-coverage", "pkg/encryption.SignedValue")
@@ -434,6 +437,7 @@ func runC02(c *Ctx) {
 	}
 
 	runC02R4(c)
+	runC02R7R8(c)
 }
 
 // returnsOnly: every return of fn has result idx satisfying pred.
@@ -609,4 +613,117 @@ func runC02R4(c *Ctx) {
 			}
 		}
 	}
+}
+
+// runC02R7R8: closed caller sets of the payload decoders; fresh per-ticket secrets.
+func runC02R7R8(c *Ctx) {
+	rule := "R7-decoder-callers"
+	allowed := map[string]map[string]string{
+		"pkg/sessions/persistence.decodeTicket": {
+			"pkg/sessions/persistence.decodeTicketFromRequest": "after encryption.Validate ok (R3)",
+		},
+		"pkg/apis/sessions.DecodeSessionState": {
+			"(*pkg/sessions/cookie.SessionStore).Load":       "after encryption.Validate ok (R3)",
+			"(*pkg/sessions/persistence.ticket).loadSession": "store value authenticated by the ticket's AES-GCM key",
+		},
+		"pkg/cookies.decrypt": {
+			"pkg/cookies.decodeCSRFCookie": "after encryption.Validate ok (R3)",
+		},
+	}
+	for name, callers := range allowed {
+		fn := c.Fn(rule, name)
+		if fn == nil {
+			continue
+		}
+		for _, cs := range c.callersOf(fn) {
+			key := "caller|" + name + "|" + fnKey(cs.Parent())
+			if why, ok := callers[fnKey(cs.Parent())]; ok {
+				c.ok(rule, key, cs, why)
+			} else {
+				c.bad(rule, key, cs, name+" is called from "+fnKey(cs.Parent())+", outside the reviewed callers that validate the cookie first: client-supplied bytes are decoded as a credential without the signature check", nil, 0)
+			}
+		}
+		for _, u := range c.funcValueUses(fn) {
+			c.bad(rule, "value-use|"+name+"|"+fnKey(u.Parent()), u, name+" escapes as a function value", nil, 0)
+		}
+	}
+	// ticket literals
+	ticketT := c.P.Named("pkg/sessions/persistence.ticket")
+	if ticketT != nil {
+		okAlloc := map[string]bool{"pkg/sessions/persistence.newTicket": true, "pkg/sessions/persistence.decodeTicket": true, "(*pkg/sessions/persistence.Manager).Clear": true}
+		for _, fn := range c.P.ModFns {
+			for _, b := range fn.Blocks {
+				for _, in := range b.Instrs {
+					al, ok := in.(*ssa.Alloc)
+					if !ok {
+						continue
+					}
+					if pt, ok := al.Type().Underlying().(*types.Pointer); !ok || !types.Identical(pt.Elem(), ticketT) {
+						continue
+					}
+					key := "ticket-literal|" + fnKey(fn)
+					if okAlloc[fnKey(fn)] {
+						c.ok(rule, key, in, "reviewed ticket constructor")
+					} else {
+						c.bad(rule, key, in, "a ticket is constructed outside newTicket/decodeTicket: its id/secret do not come from fresh entropy or a validated cookie", nil, 0)
+					}
+				}
+			}
+		}
+	}
+
+	rule = "R8-fresh-ticket"
+	newTicket := c.Fn(rule, "pkg/sessions/persistence.newTicket")
+	secretF := c.Field(rule, "pkg/sessions/persistence.ticket.secret")
+	readFull := c.StdFunc(rule, "io.ReadFull")
+	if newTicket == nil || secretF == nil || readFull == nil {
+		return
+	}
+	c.Walk(rule, newTicket, func(p *walk.Path) {
+		rv, ok := p.ReturnDV(0)
+		if !ok || DefinitelyNil(p, rv, p.End()) {
+			return
+		}
+		at := p.End()
+		key := "entropy|" + fnKey(newTicket)
+		reads := p.Find(walk.Static(readFull), at)
+		okAll := len(reads) >= 2
+		var bufs []walk.DV
+		for _, rc := range reads {
+			if globalLoad(unwrap(rc.C.Args[0])) != "crypto/rand.Reader" {
+				okAll = false
+			}
+			if n, k := p.ResultNil(rc.DV(), 1, at); !(k && n) {
+				okAll = false
+			}
+			bufs = append(bufs, p.Arg(rc, 1))
+		}
+		// the secret stored in the ticket is one of the filled buffers; the id encodes another
+		secretOK, idOK := false, false
+		for _, s := range p.Steps {
+			switch x := s.In.(type) {
+			case *ssa.Store:
+				if fa, ok := x.Addr.(*ssa.FieldAddr); ok && walk.FieldOf(fa.X.Type(), fa.Field) == secretF {
+					for _, b := range bufs {
+						if p.Same(p.StepOp(x.Val, s), b) {
+							secretOK = true
+						}
+					}
+				}
+			case *ssa.Call:
+				if sc := x.Call.StaticCallee(); sc != nil && sc.Name() == "EncodeToString" && sc.Pkg != nil && sc.Pkg.Pkg.Path() == "encoding/hex" {
+					for _, b := range bufs {
+						if p.Same(p.StepOp(x.Call.Args[0], s), b) {
+							idOK = true
+						}
+					}
+				}
+			}
+		}
+		if okAll && secretOK && idOK {
+			c.ok(rule, key, p.Exit, "ticket id and AES key are buffers filled by successful io.ReadFull(crypto/rand.Reader, ·) calls")
+		} else {
+			c.bad(rule, key, p.Exit, sprintf("a ticket is minted on a path where its id/secret are not known to be filled from crypto/rand without error (reads ok:%v secret:%v id:%v): an all-zero key makes the store entry readable and shared", okAll, secretOK, idOK), p, at)
+		}
+	})
 }
